@@ -22,10 +22,13 @@ def parseProp (s : String) : Option Prp :=
     pure ⟨a, sc⟩
   | _ => none
 
-/-- `txid,vout,value,blocktime` -/
+/-- `txid,vout,value,blocktime[,c|u]` (`u` = unconfirmed; default confirmed) -/
 def parseUtxo (s : String) : Option Utxo :=
   match s.splitOn "," with
-  | [t, v, x, b] => do pure ⟨strNats t, ← v.toNat?, ← x.toNat?, ← b.toNat?⟩
+  | [t, v, x, b] => do pure ⟨strNats t, ← v.toNat?, ← x.toNat?, ← b.toNat?, true⟩
+  | [t, v, x, b, c] => do
+    let c ← if c = "c" then some true else if c = "u" then some false else none
+    pure ⟨strNats t, ← v.toNat?, ← x.toNat?, ← b.toNat?, c⟩
   | _ => none
 
 def lowerHex (c : Nat) : Nat := if 65 ≤ c ∧ c ≤ 70 then c + 32 else c
@@ -51,8 +54,8 @@ def parseTx (us : List Utxo) (s : String) : Option Tx :=
         let v ← v.toNat?
         let x ← x.toNat?
         match us[k]? with
-        | some u => if normTxid u.txid = t then some (⟨u.txid, v, x, u.btime⟩ : Utxo) else some ⟨strNats t, v, x, u.btime⟩
-        | none => some ⟨strNats t, v, x, 0⟩
+        | some u => if normTxid u.txid = t then some (⟨u.txid, v, x, u.btime, u.confirmed⟩ : Utxo) else some ⟨strNats t, v, x, u.btime, u.confirmed⟩
+        | none => some ⟨strNats t, v, x, 0, true⟩
       | _ => none
     let outs ← (items o ",").mapM fun it =>
       match it.splitOn ":" with
@@ -87,7 +90,24 @@ def verdictTx (op : String) (i : Inp) (impl : String) : Verdict :=
     | _, _ => "na"
   ⟨ms, ok, s!"{op}:{kind}:wf={wf}:props={min i.props.length 3}:total={band}:recipients-valid={i.props.all (·.script.isSome)}"⟩
 
-def showUtxo (u : Utxo) : String := s!"{String.ofList (u.txid.map Char.ofNat)}:{u.vout}:{u.value}:{u.btime}"
+def showUtxo (u : Utxo) : String :=
+  s!"{String.ofList (u.txid.map Char.ofNat)}:{u.vout}:{u.value}:{u.btime}:{if u.confirmed then "c" else "u"}"
+
+def showUtxos (l : List Utxo) : String := joinOr (l.map showUtxo) ","
+
+/-- what the `utxos` ops print: `txid:vout:value:blocktime:c|u,…` -/
+def parseUtxoOut (s : String) : Option (List Utxo) :=
+  (items s ",").mapM fun it =>
+    match it.splitOn ":" with
+    | [t, v, x, b, c] => do
+      let c ← if c = "c" then some true else if c = "u" then some false else none
+      pure (⟨strNats t, ← v.toNat?, ← x.toNat?, ← b.toNat?, c⟩ : Utxo)
+    | _ => none
+
+def utxoTag (l : List Utxo) : String :=
+  let ties := decide ((l.map (·.btime)).eraseDups.length < l.length)
+  let sameTx := decide ((l.map (·.txid)).eraseDups.length < l.length)
+  s!"n={min l.length 5}:time-ties={ties}:same-txid={sameTx}:unconfirmed={min (l.filter (!·.confirmed)).length 3}:distinct={decide (OutpointsDistinct l)}"
 
 def handle (op : String) (args : List String) (impl : String) : Option Verdict :=
   match op, args with
@@ -102,14 +122,30 @@ def handle (op : String) (args : List String) (impl : String) : Option Verdict :
   | "utxos", [listing] => some <| Id.run do
     let some l := (items listing ";").mapM parseUtxo | return bad
     let m := sortUtxos l
-    let out := (items impl ",").mapM fun it =>
-      match it.splitOn ":" with
-      | [t, v, x, b] => do pure (⟨strNats t, ← v.toNat?, ← x.toNat?, ← b.toNat?⟩ : Utxo)
-      | _ => none
-    let ok := match out with | some o => decide (P16sort l o) | none => false
-    let ties := decide ((l.map (·.btime)).eraseDups.length < l.length)
-    let sameTx := decide ((l.map (·.txid)).eraseDups.length < l.length)
-    return ⟨joinOr (m.map showUtxo) ",", ok, s!"utxos:n={min l.length 5}:time-ties={ties}:same-txid={sameTx}:distinct={decide (OutpointsDistinct l)}"⟩
+    let ok := match parseUtxoOut impl with | some o => decide (P16sort l o) | none => false
+    return ⟨showUtxos m, ok, s!"utxos:{utxoTag l}"⟩
+  | "utxoperm", [l1, l2] => some <| Id.run do
+    -- the real Utxos run on two listings of the same set; the property needs no model: both answers must be the same list
+    let some a := (items l1 ";").mapM parseUtxo | return bad
+    let some b := (items l2 ";").mapM parseUtxo | return bad
+    if !decide (a.Perm b) then return bad
+    let ok := match impl.splitOn "|" with
+      | [o1, o2] => o1 == o2 && (match parseUtxoOut o1 with | some o => decide (o.Perm a) | none => false)
+      | _ => false
+    return ⟨showUtxos (sortUtxos a) ++ "|" ++ showUtxos (sortUtxos b), ok, s!"utxoperm:{utxoTag a}:same-order={decide (a = b)}"⟩
+  | "buildperm", [rate, cid, bridge, props, l1, l2] => some <| Id.run do
+    -- the real MempoolAPI + rawTx on two listings of the same UTXO set: same set and quotes ⇒ same transaction (or both refused)
+    let some i1 := parseInp rate cid bridge props l1 | return bad
+    let some i2 := parseInp rate cid bridge props l2 | return bad
+    let some a := i1.utxos | return bad
+    let some b := i2.utxos | return bad
+    if !decide (a.Perm b) then return bad
+    let sh (i : Inp) : String := match rawTx { i with utxos := i.utxos.map sortUtxos } with | none => "err" | some tx => showTx tx
+    let ok := match impl.splitOn "#" with
+      | [t1, t2] => t1 == t2
+      | _ => false
+    let kind := if (rawTx { i1 with utxos := i1.utxos.map sortUtxos }).isSome then "tx" else "err"
+    return ⟨sh i1 ++ "#" ++ sh i2, ok, s!"buildperm:{kind}:{utxoTag a}"⟩
   | "fee", [rate, i, o] => some <| Id.run do
     let some i := i.toNat? | return bad
     let some o := o.toNat? | return bad
